@@ -44,6 +44,12 @@ def run_case(ctx, case):
         f = obs.build(spec)
         s = str(f)
         s2 = str(f)
+    except ValueError:
+        if case.get("unusual_values"):
+            ctx.count("unusual_style_value_rejected")      # refusing 0/None as a style value is fine
+            return
+        ctx.judge(False, case, mech="C01:exception", got="ValueError")
+        return
     except Exception as e:  # noqa
         ctx.judge(False, case, mech="C01:exception", got=repr(e))
         return
@@ -78,6 +84,11 @@ def run(ctx):
         run_case(ctx, {"spec": [["a一\nb", a]]})
         run_case(ctx, {"spec": [NEIGH_L, ["pq", a], NEIGH_R]})
         ctx.count("attribute_sets_enumerated")
+    if ctx.shard[0] == 0:
+        # style values that are falsy without being False: off, like False (or refused)
+        for a in ({"bold": 0}, {"underline": None, "fg": 31}, {"italic": 0, "bold": True}, {"invert": None, "bg": 44}):
+            run_case(ctx, {"spec": [["a一\nb", a]], "unusual_values": True})
+            run_case(ctx, {"spec": [NEIGH_L, ["pq", a], NEIGH_R], "unusual_values": True})
     ctx.exhaustive = True
     ctx.notes["attribute_sets_space"] = 59049 if tri else 5184
     if not ctx.quick:
